@@ -1357,6 +1357,7 @@ SEQ_CONTEXTS = [
 def _seq_layouts(kind):
     el = ['aa', 'bb', 'cc', 'dd'] if kind == 'e' else ['aa: 1', 'bb: 2', 'cc: 3', 'dd: 4']
     a, b, c, d = el
+    m, m2 = ('é日', 'üñ') if kind == 'e' else ('é日: 5', 'üñ: 6')
     return [
         f'{a}, {b}, {c}',
         f'{a},\n  {b},\n  {c}',
@@ -1365,6 +1366,9 @@ def _seq_layouts(kind):
         f'{a},  # ta\n  {b},  # tb\n  {c}  # tc\n',
         f'\n  # lead\n  {a},  # ta\n\n  # own\n  {b}, {c},\n',
         f'{a}, {b},  # tab\n  # own é\n  {c}, {d}',
+        f'{a},\n  {m}, {b}',                 # multi-byte text only on the last line
+        f'{m}, {a},\n  {b}, {c}',            # multi-byte text only on the first line
+        f'{a}, {m},\n  {b},\n  {m2}',
     ]
 
 
@@ -1377,18 +1381,30 @@ def seq_layout_product():
                 tree = ast.parse(src)
             except SyntaxError:
                 continue
-            n = 4 if ('dd' in lay) else 3
+            n = 4 if ('dd' in lay or 'üñ' in lay) else 3
             pre = [[list(map(list, p)), q] for p, _ in enum_nodes(tree) for q in ('loc', 'bloc', 'pars', 'src', 'own_src', 'links', 'nav', 'pos', 'views')]
             for i in range(n):
                 for j in range(i + 1, n + 1):
                     if j - i == n:
                         continue
                     for how in ('del', 'cut'):
-                        for triv in (None, False, 'all'):
+                        for triv in ((None, False, 'all') if '#' in lay else (None,)):
                             op = {'op': 'virt', 'path': path, 'field': fld, 'start': i, 'stop': j, 'how': how}
                             if triv is not None:
                                 op['trivia'] = triv
                             out.append((src, [{'pre': pre, 'op': op}]))
+            # parenthesize / unparenthesize the sequence itself and each of its elements (delimiters get added to and
+            # removed from undelimited sequences here; multi-line + multi-byte layouts matter)
+            targets = [path]
+            if not fld.startswith('_'):
+                targets += [path + [[fld, i]] for i in sorted({0, n - 1})]
+            for tp in targets:
+                for op in ({'op': 'par', 'path': tp, 'force': False}, {'op': 'par', 'path': tp, 'force': True},
+                           {'op': 'unpar', 'path': tp, 'node': False, 'shared': True},
+                           {'op': 'unpar', 'path': tp, 'node': True, 'shared': True}):
+                    out.append((src, [{'pre': pre, 'op': op}]))
+                out.append((src, [{'pre': pre, 'op': {'op': 'par', 'path': tp, 'force': True}},
+                                  {'pre': pre, 'op': {'op': 'unpar', 'path': tp, 'node': True, 'shared': True}}]))
     return out
 
 
